@@ -375,6 +375,41 @@ func checkC06(w *World, r *Recorder) propInfo {
 	// ---------- A4 ----------
 	ruleOptions(w, r, "C06-A4", "DecOptions")
 
+	// ---------- A5 ----------
+	// no loop in decode-reachable code carries a value around its back edge
+	// through a builder whose cost grows with what has been accumulated
+	// (string +, fmt.Sprintf/Errorf, errors.Join, strings.Join/Repeat): with a
+	// trip count the input controls, total work and allocation are quadratic
+	nA5 := 0
+	for _, fn := range sortedFuncs(reach) {
+		if !inScope(fn) || fn.Blocks == nil {
+			continue
+		}
+		for _, b := range fn.Blocks {
+			for _, in := range b.Instrs {
+				phi, ok := in.(*ssa.Phi)
+				if !ok {
+					break
+				}
+				for i, e := range phi.Edges {
+					if !b.Dominates(b.Preds[i]) {
+						continue // not a back edge
+					}
+					if site, what := accumulatesThrough(e, phi, 0); site != nil {
+						nA5++
+						if loopBoundConstant(b) {
+							r.Prove("C06-A5", fmt.Sprintf("%s#loop@b%d", fnKey(fn), b.Index), w.InstrPos(site), "accumulation through "+what+" in a loop with a constant trip count", true)
+							continue
+						}
+						r.Refute("C06-A5", fmt.Sprintf("%s#loop@b%d:%s", fnKey(fn), b.Index, what), w.InstrPos(site), fmt.Sprintf("%s is rebuilt from its previous value by %s on every iteration of a loop whose trip count depends on the input: total allocation (and the time to render it) grows quadratically with the number of iterations, not linearly with the input", phi.Comment, what))
+					}
+				}
+			}
+		}
+	}
+	r.Count("accumulating_loops", nA5)
+	r.Prove("C06-A5", "scan", "-", fmt.Sprintf("%d decode-reachable functions scanned for loop-carried accumulation through superlinear builders", len(reach)), false)
+
 	r.Floor("C06-A1", 3)
 	r.Floor("C06-A2", 2)
 	r.Floor("C06-A3", 6)
@@ -529,12 +564,12 @@ func fromEmbeddedRecord(v ssa.Value) bool {
 	case *ssa.UnOp:
 		if fa, ok := x.X.(*ssa.FieldAddr); ok {
 			if n, ok := fa.X.Type().Underlying().(*types.Pointer).Elem().(*types.Named); ok {
-				return n.Obj().Name() == "embedded"
+				return isEmbedRecord(n)
 			}
 		}
 	case *ssa.Field:
 		if n, ok := x.X.Type().(*types.Named); ok {
-			return n.Obj().Name() == "embedded"
+			return isEmbedRecord(n)
 		}
 	case *ssa.Extract:
 		return false
@@ -842,4 +877,90 @@ func allocatingCall(c *ssa.Call) (int, string) {
 		return 1, "slices.Repeat count"
 	}
 	return -1, ""
+}
+
+// superlinearBuilder: calls whose cost is proportional to the size of (some
+// of) their arguments and whose result contains them.
+var superlinearBuilder = map[string]bool{
+	"errors.Join": true, "fmt.Errorf": true, "fmt.Sprintf": true, "fmt.Sprint": true, "fmt.Sprintln": true,
+	"strings.Join": true, "strings.Repeat": true, "bytes.Join": true, "bytes.Repeat": true,
+}
+
+// accumulatesThrough: value e (on a back edge) is computed from phi through a
+// superlinear builder or string concatenation, possibly via conversions and
+// the varargs slice of a fmt call. Returns the building instruction.
+func accumulatesThrough(e ssa.Value, phi *ssa.Phi, depth int) (ssa.Instruction, string) {
+	if depth > 4 {
+		return nil, ""
+	}
+	uses := func(v ssa.Value) bool {
+		for d := 0; d < 4 && v != nil; d++ {
+			if v == ssa.Value(phi) {
+				return true
+			}
+			switch x := v.(type) {
+			case *ssa.MakeInterface:
+				v = x.X
+			case *ssa.ChangeInterface:
+				v = x.X
+			case *ssa.ChangeType:
+				v = x.X
+			case *ssa.Convert:
+				v = x.X
+			default:
+				return false
+			}
+		}
+		return false
+	}
+	switch x := e.(type) {
+	case *ssa.Phi:
+		if x == phi {
+			return nil, ""
+		}
+		for _, e2 := range x.Edges {
+			if in, what := accumulatesThrough(e2, phi, depth+1); in != nil {
+				return in, what
+			}
+		}
+	case *ssa.BinOp:
+		if x.Op == token.ADD && isStringType(x.Type()) && (uses(x.X) || uses(x.Y)) {
+			return x, "string concatenation"
+		}
+	case *ssa.MakeInterface:
+		return accumulatesThrough(x.X, phi, depth+1)
+	case *ssa.ChangeInterface:
+		return accumulatesThrough(x.X, phi, depth+1)
+	case *ssa.Call:
+		name := calleeName(&x.Call)
+		if !superlinearBuilder[name] {
+			return nil, ""
+		}
+		for _, a := range x.Call.Args {
+			if uses(a) {
+				return x, name
+			}
+		}
+		for _, a := range varargsOperands(x) {
+			if a != nil && uses(a) {
+				return x, name
+			}
+		}
+	}
+	return nil, ""
+}
+
+// loopBoundConstant: the loop headed by b compares its counter with a constant.
+func loopBoundConstant(b *ssa.BasicBlock) bool {
+	ifi, ok := b.Instrs[len(b.Instrs)-1].(*ssa.If)
+	if !ok {
+		return false
+	}
+	cmp, ok := ifi.Cond.(*ssa.BinOp)
+	if !ok {
+		return false
+	}
+	_, c1 := cmp.X.(*ssa.Const)
+	_, c2 := cmp.Y.(*ssa.Const)
+	return c1 || c2
 }
